@@ -91,7 +91,7 @@ def t_fuzz(shard, nshards, seed, ev, known, runs=100000):
                 for hi, _ in enumerate(form.heads):
                     vals = [samples[form.classes[(hi + j) % len(form.classes)]] for j in range(form.slots)]
                     if "exact" in form.text_kw:
-                        vals = ["cRr9m5bWF4D1P7EsGw53WWzWMO_xcvnY"]
+                        vals = ["cRr9m5bWF4D1P7EsGw53WWzWMO_xcvnY", "Zq9m5bWF4D1P7EsGw53WWzWMO_xcvnYk"][: form.slots]
                     line, _ = S.render(form, hi, hi, vals)
                     with open(os.path.join(d, "corpus", "s%04d" % k), "wb") as fh:
                         fh.write(bytes([1 + (k % 15), k % len(SALTS)]) + line.encode("utf-8"))
